@@ -44,11 +44,26 @@ pub fn transports_compiled() -> Vec<u8> {
 pub fn run_transports(script: &Script, keep_trace: bool) -> Outcome {
     let mut s0 = script.clone();
     s0.transport = 0;
-    let base = run(&s0, keep_trace);
+    let mut base = run(&s0, keep_trace);
+    let ts = transports_compiled();
     if base.failure.is_some() {
+        // std::io itself deviates (that is C14's finding). C16 also says the embedded impls
+        // "never fail": if they deviate from the model on the same script, say so as well.
+        for t in ts.iter().skip(1) {
+            let mut s = script.clone();
+            s.transport = *t;
+            if let Some(f) = run(&s, false).failure {
+                if f.classes & cls::HARNESS == 0 {
+                    if let Some(bf) = &mut base.failure {
+                        bf.classes |= cls::EIO;
+                        bf.msg = format!("{} || [transport {}] {}", bf.msg, tname(*t), f.msg);
+                    }
+                    break;
+                }
+            }
+        }
         return base;
     }
-    let ts = transports_compiled();
     if ts.len() < 2 {
         return crate::harness_fail("transports mode needs a build with feature eio and/or eioa".into());
     }
@@ -254,7 +269,12 @@ fn run_n<const N: usize>(script: &Script, keep_trace: bool) -> Outcome {
     };
     ex.poison();
     for (i, st) in script.steps.iter().enumerate() {
-        ex.step(i, st);
+        let r = std::panic::catch_unwind(std::panic::AssertUnwindSafe(|| ex.step(i, st)));
+        if r.is_err() {
+            let own = ex.own();
+            let (c, m) = crate::exec::classify_stray_panic(own | cls::PANIC_SPEC);
+            ex.fail(c, m);
+        }
         if ex.fail.is_some() {
             break;
         }
